@@ -121,7 +121,7 @@ def rnd_desc(rng: random.Random, i: int) -> dict[str, Any]:
     desc: dict[str, Any] = {**extra, 'seed': rng.randrange(1 << 30), 'handlers': handlers, 'timeline': tl, 'faults': faults, 'quiet': None, 'latency': 0.001, 'end': 'stop', 'exit_wait': 200.0,
                             'settings': {'queueing__idle_timeout': 1.0, 'persistence__consistency_timeout': 0.5, 'networking__error_backoffs': [0.2, 0.3], 'peering__lifetime': 12,
                                          'background__cancellation_polling': 1.0},
-                            'trigger': trig, 't_trigger': t_trig, 't_final': 40.0}
+                            'trigger': trig, 't_trigger': t_trig, 't_final': 40.0, 'post_yields': rng.choice([0, 0, 0, 1, 2, 3, 5, 8])}
     if peering:
         desc['peering'] = {'name': 'default'}
     return desc
